@@ -406,7 +406,22 @@ def res_kind_only(line, txt):
 
 PROPS['C02'] = P_('well-formed ordered tree', 'arena', plan(G_COMMON_QUICK, G_COMMON_THOROUGH),
                   observable=mk_obs(lambda d: d.structure()), internal=[], oracles=['C02.'], special='tree', requires=['markup', 'texts'])
-PROPS['C03'] = P_('markup mirrors the logical structure', 'tok,arena', plan(G_COMMON_QUICK, G_COMMON_THOROUGH),
+def chk_decl_no_node(il, txt):
+    """C03: the XML declaration yields no node: when the input begins (after an optional BOM) with
+    `<?xml` and white space, an accepted parse has no PI named `xml` standing at that place"""
+    t = txt[3:] if txt[:3] == b'\xef\xbb\xbf' else txt
+    off = len(txt) - len(t)
+    if not (t[:5] == b'<?xml' and t[5:6] in (b' ', b'\t', b'\n', b'\r')):
+        return []
+    d = Dump(il, txt)
+    if not d.ok:
+        return []
+    for n in d.nodes:
+        if n['kind'] == 'P' and n['target'][0] == b'xml' and n['parent'] == 0 and n['prev'] is None:
+            return ['the XML declaration produced a processing-instruction node (target xml) as first child of the root node']
+    return []
+
+PROPS['C03'] = P_('markup mirrors the logical structure', 'tok,arena', plan(G_COMMON_QUICK, G_COMMON_THOROUGH), impl_checks=[chk_decl_no_node],
                   observable=obs_reject_wellformed(lambda d: d.markup()), internal=[('TK', tok_strings), ('TKRES', res_kind_only)], special='markup')
 PROPS['C04'] = P_('character data decoding', 'arena,ev',
                   plan(G_COMMON_QUICK[:2] + [['pieces-text', 2]], G_COMMON_THOROUGH[:3] + [['pieces-text', 4]]),
